@@ -175,6 +175,8 @@ def prepare(top, sched, seed=0, vcd=None, textwave=False, ff_perm_seed=None):
       simple.schedule_ff(top)
       simple.schedule_posedge_flip(top)
       info["forced"] = [b.__name__ for b in order]
+      if base == "forced_unroll" and ff_perm_seed is not None:
+        permute_ff(top, ff_perm_seed)
       if base == "forced_unroll":
         UnrollSimPass(print_line_trace=False)(top)
       else:
@@ -210,30 +212,39 @@ class BlockRecorder:
   """Records the sequence of invocations of the design's update blocks
   (original function objects) through sys.setprofile 'call' events.  Works
   through Mamba meta-blocks, SCC wrappers and unrolled ticks, because the
-  original function objects are still what is called."""
+  original function objects are still what is called.
+
+  Code objects compare by value, so two instances of one class (or two
+  generated net blocks with identical text) share a key; they are told apart
+  by the `s` their closure / globals bind.  Blocks that are still
+  indistinguishable form a group: `group[blk]` is the representative that is
+  logged, `group_size[rep]` the number of blocks it stands for."""
 
   def __init__(self, top, on_call=None):
-    self.codes = {}
+    self.by_key = {}
+    self.group = {}
+    self.group_size = {}
+    self.ambiguous = set()
+    by_code = {}
     for blk in top._dag.final_upblks:
       code = getattr(blk, "__code__", None)
       if code is not None:
-        self.codes[code] = blk
-    # several blocks can share a code object (same class instantiated twice):
-    # disambiguate through the closure's `s`
-    self.by_code = {}
-    for blk in top._dag.final_upblks:
-      code = getattr(blk, "__code__", None)
-      if code is not None:
-        self.by_code.setdefault(code, []).append(blk)
-    self.ambiguous = {c for c, l in self.by_code.items() if len(l) > 1}
-    self.host_of = {}
-    for c in self.ambiguous:
-      for blk in self.by_code[c]:
-        s_obj = _closure_s(blk)
-        self.host_of[(c, id(s_obj))] = blk
+        by_code.setdefault(code, []).append(blk)
+    for code, blks in by_code.items():
+      if len(blks) == 1:
+        self.by_key[(code, None)] = blks[0]
+        self.group[blks[0]] = blks[0]
+        self.group_size[blks[0]] = 1
+      else:
+        self.ambiguous.add(code)
+        for blk in blks:
+          k = (code, id(_bound_s(blk)))
+          rep = self.by_key.setdefault(k, blk)
+          self.group[blk] = rep
+          self.group_size[rep] = self.group_size.get(rep, 0) + 1
+    self.codes = set(by_code)
     self.log = []
     self.on_call = on_call
-    self.active = False
 
   def _prof(self, frame, event, arg):
     if event != "call":
@@ -241,11 +252,12 @@ class BlockRecorder:
     code = frame.f_code
     if code in self.codes:
       if code in self.ambiguous:
-        blk = self.host_of.get((code, id(frame.f_locals.get("s"))))
+        s_obj = frame.f_locals.get("s") if "s" in code.co_freevars else frame.f_globals.get("s")
+        blk = self.by_key.get((code, id(s_obj)))
         if blk is None:
-          blk = self.codes[code]
+          return
       else:
-        blk = self.codes[code]
+        blk = self.by_key[(code, None)]
       self.log.append(blk)
       if self.on_call is not None:
         self.on_call(blk)
@@ -258,6 +270,13 @@ class BlockRecorder:
   def __exit__(self, *a):
     sys.setprofile(None)
     return False
+
+
+def _bound_s(fn):
+  s_obj = _closure_s(fn)
+  if s_obj is None:
+    s_obj = getattr(fn, "__globals__", {}).get("s")
+  return s_obj
 
 
 def _closure_s(fn):
